@@ -329,12 +329,6 @@ Lemma xmatches_view e t ks : forall i j,
 Proof.
   induction ks as [|k ks IH]; intros i j; cbn [xmatches map filter]; [reflexivity|].
   specialize (IH (S i)).
-  assert (Hshift : forall j', map (fun ik : nat * xtree => (j' + lidx alive_w ks (fst ik - S i), aw (snd ik)))
-                                 (xmatches e t (S i) ks)
-                    = map (fun ik : nat * xtree =>
-                             (j' - (if alive_w k then 1 else 0) + lidx alive_w (k :: ks) (fst ik - i), aw (snd ik)))
-                          (xmatches e t (S i) ks) \/ True) by (intros; right; exact I).
-  clear Hshift.
   assert (Hge : forall ik, In ik (xmatches e t (S i) ks) -> S i <= fst ik).
   { clear. revert i. induction ks as [|k ks IH]; intros i ik H; cbn in H; [contradiction|].
     destruct (test_matches e t (TElem (xtag k))) as [[|]|]; try (apply IH in H; lia).
